@@ -258,6 +258,8 @@ def replay(ctx, ob):
     def go(args, t=300):
         rc, o, e, _ = run([exe] + args, t)
         tries.append(dict(cmd="c19_replay " + " ".join(args), output=(o + e)[-1500:]))
+        if "Assertion `" in e:      # an assert of the real code fired on a real run: that is a failing input
+            o += "\nREPRODUCED: " + e.strip()[-300:]
         return o
     if ob.unit == "stepto.finding.report_in_window":
         o = go(["window"])
